@@ -114,6 +114,10 @@ def _table(rng, fmt, maxrows, nf=None, hdr=None):
             elif r < 0.35:
                 row = row + ['extra']
         rows.append(row)
+    if n and rng.random() < 0.06:
+        # the header line again as a data row (a file that was given its
+        # header twice): a row like any other
+        rows[rng.choice([1, 1, n])] = list(hdr)
     return [[enc(c) for c in r] for r in rows]
 
 
@@ -208,7 +212,10 @@ def _case(rng, fmt, target, args, hist):
     return {'prop': PROP, 'fmt': fmt, 'target': target, 'args': args,
             'config': draw_config(rng, 0.1),
             'history': hist,
-            'read_header': rng.random() < 0.25 and fmt in ('csv', 'tsv'),
+            # (read back with header=: other names, or the names the table
+            # was written under)
+            'read_header': rng.choice([True, 'own'])
+            if rng.random() < 0.25 and fmt in ('csv', 'tsv') else False,
             # a write attempt whose row source fails part-way, made before a
             # TO operation; the caller keeps the exception until after the
             # next successful write
@@ -216,6 +223,12 @@ def _case(rng, fmt, target, args, hist):
                                     if h[0] == 'TO' and rng.random() < 0.2],
             'failed_at': rng.randint(0, 6),
             'fluent': rng.random() < 0.15,
+            'decoy': rng.choice([
+                {'delimiter': '|', 'quoting': csv.QUOTE_ALL},
+                {'quotechar': "'", 'encoding': 'utf-16'},
+                {'delimiter': ';', 'quoting': csv.QUOTE_NONNUMERIC,
+                 'lineterminator': '\n'}])
+            if fmt in ('csv', 'tsv') and rng.random() < 0.15 else None,
             'same_object': rng.random() < 0.25,
             'relname': rng.choice(['http_status', 'https-certs', 'ftp_list',
                                    'smb_share', 's3_dump', 'file_x', 'C_'])
@@ -470,6 +483,23 @@ def run_case(case):
                          '' if case.get('relname') else sb.path,
                          case.get('relname') or 't',
                          srcobj=case.get('srcobj'))
+            if case.get('decoy') and fmt in ('csv', 'tsv'):
+                # another file written and read with the same functions and
+                # OTHER formatting arguments first (an application handles
+                # more than one file): arguments belong to a call
+                probes['decoy-file-first'] = 1
+                dargs = dict(case['decoy'])
+                dtgt = Target(e, 'memory', fmt, store, sb.path, 'decoy')
+                try:
+                    _write(e, fmt, 'TO', [['p', 'q'], ['1', 'x|y'],
+                                          ['2', 'z']], dtgt.w, dargs, None)
+                    _write(e, fmt, 'APPEND', [['p', 'q'], ['3', '']],
+                           dtgt.w, dargs, None)
+                    ra = dict(dargs)
+                    list(iter((e.fromcsv if fmt == 'csv' else e.fromtsv)(
+                        dtgt.reader(), **ra)))
+                except Exception:
+                    pass
             kept = []
             long_view = [None]  # one reader view kept across the history
             records = []        # content model: rows in file order
@@ -595,6 +625,7 @@ def run_case(case):
                 rd = tgt.reader()
                 got = None
                 fresh_view = None
+                hdr_arg = None
                 try:
                     if fmt in ('csv', 'tsv'):
                         ra = dict(enc_args)
@@ -602,6 +633,9 @@ def run_case(case):
                         ra.pop('dialect')
                         hdr_arg = ['h%d' % i for i in range(3)] \
                             if case.get('read_header') else None
+                        if case.get('read_header') == 'own':
+                            hdr_arg = ['' if c is None else str(c)
+                                       for c in table[0]]
                         view = (e.fromcsv if fmt == 'csv' else e.fromtsv)(
                             rd, header=hdr_arg, **ra)
                         got = [r for r in iter(view)]
@@ -677,7 +711,12 @@ def run_case(case):
                         fresh_view is not None:
                     if long_view[0] is None:
                         long_view[0] = fresh_view
+                        long_view.append(hdr_arg)
                     else:
+                        want_old = want
+                        if long_view[1]:
+                            # (it keeps the header= it was given)
+                            want_old = [tuple(long_view[1])] + want[1:]
                         try:
                             again = [r for r in iter(long_view[0])]
                         except Exception as ex:
@@ -686,12 +725,12 @@ def run_case(case):
                                        'iterated again after %s #%d, raised '
                                        '%s: %s' % (what, op, opi,
                                                    type(ex).__name__, ex))
-                        if canon_rows(again) != canon_rows(want):
+                        if canon_rows(again) != canon_rows(want_old):
                             raise _Bad('old-view-differs',
                                        '%s: a reader view created earlier, '
                                        'iterated again after %s #%d, yields '
                                        '%r; the target now holds %r'
-                                       % (what, op, opi, again, want))
+                                       % (what, op, opi, again, want_old))
                         probes['old-reader-view-reiterated'] = 1
                 if want is not None:
                     log.add('read', canon_rows(got))
